@@ -414,6 +414,12 @@ def replay(case, acc):
         check_leak(acc)
     elif "no_month_field" in case:
         check_nofield(acc)
+    elif "chain" in case or "edit_then" in case or "edit_input_then" in case:
+        for m in range(1, 13):
+            check_chains(m, acc)
+    elif "leading_zeros" in case:
+        for m in range(1, 13):
+            check_zeros(m, acc)
     elif "after" in case:
         check_after_others(acc)
     else:
